@@ -9,4 +9,3 @@ CONSTANTS
   EmitSel = "same"
 VIEW View
 INVARIANTS ReindexIsIdeal NoLeak C08_Model Emit
-ACTION_CONSTRAINT EmitEdge
